@@ -164,6 +164,31 @@ def run_case(case):
         # rebuild from the same model object and compare
         from lcm.entry_point import get_lcm_function
 
+        # the parameter template handed out by every build is the caller's to fill in place: a later build (of this or of another
+        # specification) must neither return the same object nor touch what the caller wrote into an earlier one
+        def _fill(t_, val):
+            for k_ in t_:
+                if k_ == "shocks":
+                    continue
+                if isinstance(t_[k_], dict):
+                    for kk_ in t_[k_]:
+                        t_[k_][kk_] = val
+                else:
+                    t_[k_] = val
+        tA = fns.template
+        _fill(tA, 0.625)
+        snapA = _snapshot_params({k_: v_ for k_, v_ in tA.items() if k_ != "shocks"})
+        _, tB = get_lcm_function(model, targets="solve")
+        evals += 1
+        if tB is tA or any(isinstance(tA.get(k_), dict) and tA[k_] is tB.get(k_) for k_ in tA):
+            vs.append({"clause": "building the functions again from the same model gives the same results", "detail": "two builds return the same parameter-template object (or share a sub-dict)"})
+        elif _snapshot_params({k_: v_ for k_, v_ in tA.items() if k_ != "shocks"}) != snapA:
+            vs.append({"clause": "params passed in are not modified", "detail": "a later get_lcm_function call changed the values the caller had written into an earlier template"})
+        else:
+            flatB = [v_ for k_, v_ in tB.items() if k_ != "shocks" for v_ in (v_.values() if isinstance(v_, dict) else [v_])]
+            if any(isinstance(x_, float) and x_ == 0.625 for x_ in flatB):
+                vs.append({"clause": "building the functions again from the same model gives the same results", "detail": "the template of a fresh build already contains values written into the template of an earlier build"})
+
         solve2, tmpl2 = get_lcm_function(model, targets="solve")
         V2 = [np.asarray(v) for v in solve2(params_impl(Pa))]
         evals += 1
